@@ -53,7 +53,7 @@ Section GC.
   (* ---- phase 2: mark ------------------------------------------------------------------------ *)
   (* the work list is a stack: the Go code pops from the tail and appends at the tail *)
   Fixpoint mark (fuel : nat) (work : list desc) (subjects : list (string * desc))
-           (seen inidx : list string) : option (list string * list string) :=
+           (seen walked inidx : list string) : option (list string * list string) :=
     match fuel with
     | 0 => None
     | S f =>
@@ -62,30 +62,33 @@ Section GC.
         | d :: rest_rev =>
             let work' := rev rest_rev in
             let inidx' := d_dig d :: inidx in
-            if mem_str (d_dig d) seen then mark f work' subjects seen inidx'
-            else if negb (has_blob (d_dig d)) then mark f work' subjects seen inidx'
+            (* a digest seen as a config or layer may also be a manifest: parsed manifests are tracked separately *)
+            if mem_str (d_dig d) walked then mark f work' subjects seen walked inidx'
+            else if negb (has_blob (d_dig d)) then mark f work' subjects seen walked inidx'
             else
               let seen1 := d_dig d :: seen in
+              let walked1 := if mt_index (d_mt d) || mt_image (d_mt d) then d_dig d :: walked else walked in
               let v := match assoc (d_dig d) blobs with Some b => blob_view E (b_data b) | None => jbad end in
               let requeue w := match assoc (d_dig d) subjects with Some r => w ++ [r] | None => w end in
               if mt_index (d_mt d) then
-                if j_ok_i v then mark f (requeue (work' ++ j_manifests v)) subjects seen1 inidx'
-                else mark f work' subjects seen1 inidx'          (* decode error: `continue`, the referrers are not queued *)
+                if j_ok_i v then mark f (requeue (work' ++ j_manifests v)) subjects seen1 walked1 inidx'
+                else mark f work' subjects seen1 walked1 inidx'   (* decode error: `continue`, the referrers are not queued *)
               else if mt_image (d_mt d) then
                 if j_ok_m v then
                   let seen2 := (match j_config v with Some c => d_dig c | None => "" end)
                                  :: map d_dig (j_layers v) ++ seen1 in
-                  mark f (requeue work') subjects seen2 inidx'
-                else mark f work' subjects seen1 inidx'
-              else mark f (requeue work') subjects seen1 inidx'
+                  mark f (requeue work') subjects seen2 walked1 inidx'
+                else mark f work' subjects seen1 walked1 inidx'
+              else mark f (requeue work') subjects seen1 walked1 inidx'
         end
     end.
 
-  (* every iteration pops one descriptor; descriptors are pushed only when a new digest is marked:
-     the children it lists, plus at most one referrers response *)
+  (* every iteration pops one descriptor; descriptors are pushed only when a manifest is parsed for the
+     first time (the children it lists) or when a descriptor with a referrers response is popped (one response);
+     unknown media types are not recorded as walked and may be popped once per push *)
   Definition mark_fuel (i : index) : nat :=
     List.length (top i)
-    + fold_right (fun b n => List.length (j_manifests (blob_view E (b_data (snd b)))) + 1 + n) 0 blobs + 1.
+    + 2 * fold_right (fun b n => List.length (j_manifests (blob_view E (b_data (snd b)))) + 2 + n) 0 blobs + 1.
 
   (* index.GetDesc(d) succeeds (d comes from the blob list: never a tag); digests of generated
      referrers responses are symbolic in the model and are looked up structurally *)
@@ -111,7 +114,7 @@ Section GC.
 
   Definition repo_gc (rp_index : index) : option (res index * list string) :=
     let '(kept, subjects, inidx0) := phase1 rp_index in
-    match mark (mark_fuel rp_index) kept subjects [] inidx0 with
+    match mark (mark_fuel rp_index) kept subjects [] [] inidx0 with
     | None => None
     | Some (seen, inidx) =>
         let '(ri, deleted) := fold_left (sweep_blob seen inidx) blobs (Ok rp_index, []) in
